@@ -325,3 +325,23 @@ Definition obs_eqb (a b : obs) : bool :=
 
 Definition row_ok (r : call * transport * obs) : bool :=
   match r with (c, t, o) => obs_eqb (run c t) o end.
+
+(** ** Link with the negotiation model of C13: what [negotiateVersion] makes of a reply,
+    expressed as a [Negotiate.reply] (specification-level; used in theorem statements). *)
+Definition classify (t : transport) : reply :=
+  match t with
+  | TFail => RTransportErr
+  | TMsg r =>
+    match r_items r with
+    | [bi] =>
+      if negb (r_count r =? 1) then RBadCount
+      else if (i_status bi =? status_failed) && (i_reason bi =? reason_not_supported) then RNotSupported
+      else if negb (i_status bi =? success) then RFailed
+      else match i_payload bi with
+           | None => RNoPayload
+           | Some v => if ptype_eqb (p_type v) (TResp op_discover) then RVersions (p_versions v)
+                       else RForeignPayload
+           end
+    | _ => RBadCount
+    end
+  end.
